@@ -32,6 +32,10 @@ ENC = [
 ]
 
 
+# numeric class labels next to the sentinel None (necessarily an object array) - used for the classifiers
+NUM_NONE = ("0,1,2+None(object array)", [0, 1, 2], None, object)
+
+
 def encode(codes, enc, K):
     name, classes, ml, dt = enc
     vals = [ml if c is None else classes[c] for c in codes]
@@ -336,7 +340,7 @@ def classifiers_and_streams(ctx):
             seed = int(rng.integers(0, 100))
             Xq = rng.normal(size=(4, 2))
             outs = []
-            for enc in ENC:
+            for enc in ENC + [NUM_NONE]:
                 ename, classes, ml, dt = enc
                 y = encode(codes, enc, K)
                 try:
@@ -364,7 +368,8 @@ def classifiers_and_streams(ctx):
                     continue
                 if not np.allclose(base[1], o[1], rtol=1e-9, atol=1e-12) or ("LogisticRegression" not in name and base[2] != o[2]):
                     ctx.violation(name, "encoding_dependent", f"{base[0]}: proba {base[1][0].tolist()} pred {base[2]}; {o[0]}: proba {o[1][0].tolist()} pred {o[2]}", rc,
-                                  what=f"{name}: predict_proba / predict depend on the label encoding ({base[0]} vs {o[0]})")
+                                  what=f"{name}: predict_proba / predict depend on the label encoding ({base[0]} vs {o[0]})",
+                                  tags={"numbers_with_None_in_object_array"} if o[0] == NUM_NONE[0] else ())
                     break
     # stream strategies (classifier based): decisions under two encodings
     for sname in ["VariableUncertainty", "Split", "StreamProbabilisticAL", "StreamDensityBasedAL"]:
